@@ -115,13 +115,15 @@ class Sim(ss.Base):
     @property
     def modules(self):
         """ Return iterator over all Module instances (stored in standard places) in the Sim """
+        products = [intv.product for intv in self.interventions() if hasattr(intv, 'product') and intv.product is not None] # TODO: simplify
+        products = list({id(p):p for p in products}.values()) # A product shared by several interventions is a single module
         return itertools.chain(
             self.demographics(),
             self.networks(),
             self.diseases(),
             self.connectors(),
             self.interventions(),
-            [intv.product for intv in self.interventions() if hasattr(intv, 'product') and intv.product is not None], # TODO: simplify
+            products,
             self.analyzers(),
         )
 
